@@ -309,6 +309,14 @@ func main() {
 		confirmedList = append(confirmedList, *v)
 	}
 
+	if len(eng.errors) > 0 || os.Getenv("GOSYM_VERBOSE") != "" {
+		for s := range eng.initWarn {
+			if len(s) > 1200 {
+				s = s[:1200]
+			}
+			fmt.Fprintln(os.Stderr, "init-warning:", s)
+		}
+	}
 	if realViolations > 0 {
 		exitCode = 1
 	} else if len(eng.errors) > 0 {
